@@ -7,7 +7,44 @@ LEAN_TB = [
     "Nat models u64/usize (no wrap-around of counters)",
 ]
 
+CLUSTER_TB = LEAN_TB[:2] + [
+    "the abstract protocol P (lean/RaftModel/Proto.lean) is tied to /repo's current source by trace validation on every run: the cluster harness (rvh cluster: real RawNode instances, contract-abiding application with sync/async persistence, durable images, crash/restart, snapshots/compaction, adversarial seeded scheduler) decomposes every library call into P events; the native Lean driver applies applyEvent (the very function the theorems are about) to every event and compares the P state of the node with the implementation's view after every call; an event P rejects or a differing view is reported",
+    "the harness's decomposition of calls into P events and its model of the application/storage (DESIGN.md 4.3 A1-A6) are trusted; so is the Rust side of the monitors",
+    "theorems named *_obligation are read off P's step function (what every step must satisfy); global theorems are for histories under one fixed joint configuration (ReachC c0); membership-changing histories are covered by trace validation and monitors only",
+    "Nat models u64/usize (no wrap-around of counters)",
+]
+
+CLUSTER_PROFILES = {
+    "quick": [
+        {"name": "fixed configuration", "args": ["--seed", "{seed}", "--runs", "40", "--steps", "3000"]},
+        {"name": "membership changes", "args": ["--seed", "{seed}", "--runs", "30", "--steps", "3000", "--reconfig"]},
+        {"name": "single voter + learner", "args": ["--seed", "{seed}", "--runs", "10", "--steps", "1500", "--voters", "1", "--learners", "1"]},
+    ],
+    "thorough": [
+        {"name": "fixed configuration", "args": ["--seed", "{seed}", "--runs", "400", "--steps", "5000"]},
+        {"name": "membership changes", "args": ["--seed", "{seed}", "--runs", "300", "--steps", "5000", "--reconfig"]},
+        {"name": "single voter + learners", "args": ["--seed", "{seed}", "--runs", "60", "--steps", "3000", "--voters", "1", "--learners", "2"]},
+        {"name": "two voters", "args": ["--seed", "{seed}", "--runs", "60", "--steps", "3000", "--voters", "2", "--learners", "1"]},
+    ],
+}
+
+CLUSTER_RULE = "simulated clusters of real RawNodes (1-5 voters, 0-2 learners, optional membership changes incl. joint configurations; knobs pre_vote/check_quorum/batch_append/max_inflight/max_size_per_msg/max_committed_size_per_ready/skip_bcast_commit drawn per run) under a seeded adversarial scheduler (tick, deliver/duplicate/drop any in-flight message, propose, read_index, transfer_leader, campaign, request_snapshot/report_*, ready with sync or async persistence and delayed fsync, compaction, crash, restart, healthy bursts); a case is one P event or one node view validated by the Lean driver; distinct = distinct event texts (kind + arguments); every event changes or witnesses protocol state, so all are non-trivial"
+
+CLUSTER_ASSUMPTIONS = [
+    "the application follows the Ready/advance contract A1-A6 of DESIGN.md 4.3 (atomic, in-order persistence of a Ready; persisted messages released only after on_persist_ready; commit index durable before applying; compaction only up to the applied index keeping the boundary term)",
+    "every delivered message was released by some node of the cluster",
+]
+
+
+def cluster(monitors, p_events, view_fields=()):
+    return {"kind": "cluster", "profiles": CLUSTER_PROFILES, "monitors": list(monitors), "p_events": list(p_events),
+            "view_fields": list(view_fields), "rule": CLUSTER_RULE, "trusted_base": CLUSTER_TB, "assumptions": CLUSTER_ASSUMPTIONS}
+
+
 PROPS = {
+    "C02": cluster(["C02"], ["campaign", "grant", "win", "stepdown"], ["role", "vote"]),
+    "C04": cluster(["C04"], ["commitleader", "commitapp", "commithb", "commitclaim", "commitsnap", "ackcommitted", "sendhb", "claim"], ["commit"]),
+    "C06": cluster(["C06"], ["bump", "rdy", "persist", "release", "crash", "restart", "sendapp", "sendhb", "sendsnap"], ["term", "up", "dterm", "dvote", "dlog", "dcommit"]),
     "C11": {
         "stateless": True,
         "gens": {
@@ -87,6 +124,30 @@ PROPS = {
         "assumptions": [
             "add is called with strictly increasing indexes (as the leader does)",
             "buffer_is_allocated() (a memory optimisation) is modelled but not compared",
+        ],
+    },
+    "C19": {
+        "gens": {
+            "quick": [
+                {"name": "random 5000x30", "args": ["memstorage", "--seed", "{seed}", "--cases", "5000", "--len", "30"]},
+                {"name": "exhaustive 3 starts x alphabet(24)^3, logs<=4", "args": ["memstorage", "--exhaustive", "--max-log", "4", "--len", "3", "--prefixes", "3"], "exhaustive": True},
+            ],
+            "thorough": [
+                {"name": "random 40000x30 stream 0", "args": ["memstorage", "--seed", "{seed}", "--stream", "0", "--cases", "40000", "--len", "30"]},
+                {"name": "random 40000x30 stream 1", "args": ["memstorage", "--seed", "{seed}", "--stream", "1", "--cases", "40000", "--len", "30"]},
+                {"name": "random 40000x30 stream 2", "args": ["memstorage", "--seed", "{seed}", "--stream", "2", "--cases", "40000", "--len", "30"]},
+                {"name": "random 40000x30 stream 3", "args": ["memstorage", "--seed", "{seed}", "--stream", "3", "--cases", "40000", "--len", "30"]},
+                {"name": "random 40000x30 stream 4", "args": ["memstorage", "--seed", "{seed}", "--stream", "4", "--cases", "40000", "--len", "30"]},
+                {"name": "exhaustive 3 starts x alphabet(24)^4, logs<=4", "args": ["memstorage", "--exhaustive", "--max-log", "4", "--len", "4", "--prefixes", "3"], "exhaustive": True},
+            ],
+        },
+        "rule": "histories of calls on the real raft::storage::MemStorage (append incl. overwriting / empty / non-contiguous / gapped / compacted batches, compact, commit_to, set_hardstate, set_conf_state, apply_snapshot incl. out-of-date, trigger_snap_unavailable, trigger_log_unavailable) generated from one PRNG (half of the histories abide by every documented precondition, the other half violates a boundary in 40 % of the calls, every call under catch_unwind) plus an exhaustive enumeration of all histories over a 24-symbol symbolic alphabet from three start states on logs of at most 4 entries; entries vary in type, term, data/context length (0..200 bytes, crossing the 127/128 varint boundary) and sync_log so that compute_size varies; after every mutation first_index, last_index, initial_state (hard state, conf state) and term(idx) for every idx in [first-2, last+2] are compared with the Lean model, followed by query lines: term at the snapshot point, entries(low, high, max_size, can_async) over the whole log and sub-ranges with max_size None / NO_LIMIT / 0 / 1 / exact prefix sizes +-1 plus boundary requests (compacted, empty range, beyond last+1, low>high), and snapshot(request_index) incl. the unavailability trigger; a case is one (observation before, call) pair, distinct = distinct pairs, non-trivial = every pair after the initial `new`",
+        "trusted_base": LEAN_TB,
+        "assumptions": [
+            "single-threaded use of MemStorage (RwLock poisoning / concurrency not modelled; a history ends at the first panic)",
+            "documented preconditions for the theorems: append batches are contiguous and start within [first_index, last_index+1]; compact_index <= last_index (compact_index <= applied); commit_to an existing entry; for snapshot(): the stored commit index is the snapshot point or a stored entry (kept by set_hardstate within range, compact <= commit, appends not cutting the log below commit)",
+            "recorded quirks outside the preconditions (model mirrors the code, Lean examples in RaftProps/C19.lean): compact(last_index+1) drains the log and first/last fall back to the old snapshot point (F5); entries(first,first) panics on an empty log; after compact, term(first_index-1) is Compacted although the trait documents it as available",
+            "get_entries_context bookkeeping of MemStorageCore is not modelled (not observable through the Storage trait)",
         ],
     },
 }
